@@ -1,0 +1,9 @@
+//go:build verif
+
+package catalog
+
+// VerifTagName exposes the automatic tag-name function.
+func VerifTagName(title string) string { return string(tagName(title)) }
+
+// VerifPathTagTitle exposes the automatic tag title (first path segment) function.
+func VerifPathTagTitle(path string) string { return pathTagTitle(path) }
